@@ -75,6 +75,12 @@ def arch_rows(levels: int):
                        buf_kw=dict(read_throughput=2, write_throughput=3, leak=0.5),
                        reg_kw=dict(read_throughput=5, write_throughput=7, leak=0.0625),
                        mac_kw=dict(leak=0.125, throughput=2)),
+        # read and write actions of one memory move different numbers of values per action
+        # while the memory is throughput-bound (latency depends on per-action counts)
+        "rw-asym-thr": mk(buf_kw=dict(act_bpa=(("read", 2), ("write", 4)), read_throughput=2, write_throughput=1),
+                          reg_kw=dict(act_bpa=(("read", 4), ("write", 2)), read_throughput=1, write_throughput=2),
+                          main_kw=dict(act_bpa=(("read", 4), ("write", 16)), read_throughput=4, write_throughput=2),
+                          mac_kw=dict(throughput=64, leak=0.125)),
         "all": mk(main_kw=dict(read_throughput=8, write_throughput=4, leak=0.25, skip=False, act_bpa=(("read", 2),)),
                   buf_kw=dict(read_throughput=2, write_throughput=3, leak=0.5, bpa=4, bpv=(("Inputs", 4),),
                               vpa=(("Outputs", 2),)),
@@ -184,6 +190,14 @@ def compare(wl, arch, prep, tree):
         bad.append(("energy", e_got, float(ref.energy)))
     if abs(l_got - float(ref.latency)) > 4 * TOL * max(1.0, float(ref.latency)):
         bad.append(("latency", l_got, float(ref.latency)))
+    try:
+        pcl = m.latency(per_component=True)
+        for comp, v in ref.per_component_latency.items():
+            g = float(pcl.get(comp, 0.0))
+            if abs(g - float(v)) > 4 * TOL * max(1.0, float(v)):
+                bad.append((f"latency|{comp}", g, float(v)))
+    except Exception as e:  # accessor failure is an observation
+        bad.append(("latency-accessor", repr(e)[:80], "per-component latency"))
     outcome = (round(e_got, 4), round(l_got, 4))
     if bad:
         kinds = sorted({b[0].split("|")[-1] if "|" in b[0] else b[0] for b in bad})
@@ -248,7 +262,7 @@ def run(ctx):
         for wl in ("MM1-222", "MV1-42", "EW1-42", "MM1-232-x3", "MM1-222-b"):
             for row in ("base", "all"):
                 plan.append((wl, 2, row, False, 0))
-        for row in ("base", "skip-reg-off", "all"):
+        for row in ("base", "skip-reg-off", "rw-asym-thr", "all"):
             plan.append(("MV1-24", 3, row, False, 600))
         for g in list(grid_rows())[::4]:  # 64 of the 256 grid points
             plan.append(("MM1-222", 2, g, True, 40))
